@@ -121,7 +121,7 @@ def _run_cvc5(txt, timeout_s, want_model):
 
 def solve_one(job):
     name, txt, timeout_s, want_model = job
-    order = ["cvc5", "z3"] if _has_fp(txt) else ["z3", "cvc5"]
+    order = ["cvc5", "z3"] if (_has_fp(txt) or "str." in txt) else ["z3", "cvc5"]
     log = []
     for be in order:
         fn = _run_z3 if be == "z3" else _run_cvc5
@@ -155,6 +155,9 @@ def discharge(obls, timeout_s=10, want_model=True, parallel=True):
     for i, ob in enumerate(obls):
         name, hyps, goal = ob[0], ob[1], ob[2]
         tmo = ob[3] if len(ob) > 3 and ob[3] else timeout_s
+        if len(ob) > 4 and ob[4]:
+            jobs.append((i, (name, ob[4], tmo, False)))
+            continue
         if z3.is_true(z3.simplify(goal)):
             results[i] = {"name": name, "verdict": "discharged", "backend": "simplify", "time": 0.0, "model": None, "log": []}
             continue
